@@ -348,8 +348,8 @@ class Run:
             return ("s", n["s"])
         if k == "this":
             return fr.this
-        if "cv" in n and k not in ("assign", "cassign", "call", "mcall", "opcall"):
-            return C(n["cv"])
+        if "cv" in n and k not in ("assign", "cassign", "opcall"):
+            return C(n["cv"])      # folded by the compiler's constant evaluator (constexpr calls included)
         if k == "ref":
             dk = n.get("dk")
             if dk == "enumc":
@@ -541,6 +541,8 @@ class Run:
     def call(self, n, fr):
         args = n.get("args", [])
         name = n.get("n") or n.get("callee") or "?"
+        if "<" in (n.get("callee") or ""):
+            name = n["callee"]      # members of class templates: the instantiation is part of the function symbol
         ts = self.args_terms(args, fr)
         if n.get("noret"):
             self.events.append(Ev("call", name, ts, n, fr.func))
